@@ -253,12 +253,21 @@ class IfArith:
 
     def inputs(self, tier, seed):
         for i, c in enumerate(cases(tier, seed)):
-            yield {"text": c.text, "tree": c.tree}
+            yield {"text": c.text, "tree": c.tree, "k": i, "tier": tier, "seed": seed}
 
     def nontrivial(self, inp):
         return inp["tree"][0] in ("bin", "tern")
 
     def check(self, inp):
+        if inp.get("_replay") and type(self) is IfArith:
+            # a replay re-creates the history of the run: every earlier expression, in this process
+            for i, c in enumerate(cases(inp.get("tier", "quick"), inp.get("seed", 0))):
+                if i >= inp.get("k", 0):
+                    break
+                self._check({"text": c.text, "tree": c.tree})
+        return self._check(inp)
+
+    def _check(self, inp):
         try:
             want = ev(inp["tree"], defined=("DEF",))
         except UB:
@@ -267,9 +276,10 @@ class IfArith:
         plat = Platform("p", "/")
         plat.define("DEF", preprocessor.macro_from_definition_string("DEF=1"))
         try:
-            toks = preprocessor.Lexer(inp["text"]).tokenize()
-            exp = preprocessor.MacroExpander(plat).expand(toks)
-            got = preprocessor.ExpressionEvaluator(exp).evaluate()
+            # through the directive node, as the analysis does (observe_at: IfNode.evaluate_for_platform); every case of the
+            # run goes through the same process, so anything remembered from an earlier expression is visible
+            node = preprocessor.DirectiveParser(preprocessor.Lexer("#if " + inp["text"]).tokenize()).parse()
+            got = node.evaluate_for_platform(platform=plat, filename="x.c", state=None)
         except BaseException as e:      # noqa: BLE001
             return {"expected": f"{want} (truth {truth})", "observed": f"raised {type(e).__name__}: {e}",
                     "klass": "if-arith:raises:" + classify(inp["tree"], inp["text"])}
@@ -278,12 +288,13 @@ class IfArith:
         return None
 
     def encode(self, inp):
-        return {"text": inp["text"], "tree": inp["tree"]}
+        return {"text": inp["text"], "tree": inp["tree"], "k": inp.get("k", 0), "tier": inp.get("tier", "quick"), "seed": inp.get("seed", 0)}
 
     def decode(self, j):
         def tup(x):
             return tuple(tup(y) for y in x) if isinstance(x, list) else x
-        return {"text": j["text"], "tree": tup(j["tree"])}
+        return {"text": j["text"], "tree": tup(j["tree"]), "k": j.get("k", 0), "tier": j.get("tier", "quick"), "seed": j.get("seed", 0),
+                "_replay": True}
 
 
 def classify(tree, text):
